@@ -35,9 +35,17 @@ def py_which(which):
     return tuple(out)
 
 
-def py_pool(hs):
+def py_pool(hs, otyp=None):
+    """otyp: outcome type of the twin ("float" / "Fraction" / None = int for integral values)"""
     from dyce import H, P
-    return P(*[H(gens.py_hist_dict(h)) for h in hs])
+    if otyp is None:
+        return P(*[H(gens.py_hist_dict(h)) for h in hs])
+    conv = {"float": float, "Fraction": Fraction}[otyp]
+    return P(*[H({conv(k): c for k, c in gens.py_hist_dict(h).items()}) for h in hs])
+
+
+def int_valued(hs):
+    return all(o[1] == 1 for h in hs for o, _ in h)
 
 
 def gen_sel_item(rng, n, cls):
